@@ -634,6 +634,61 @@ pub static OPS: &[OpDef] = &[
             w_ls(o, &geo::algorithm::DensifyHaversine::densify_haversine(&ll, 100_000.0));
         }
     }),
+    // ---- heterogeneous collections: members of different dimension, nested, on grid
+    //      coordinates (exact ties between candidates of different kind)
+    op!("collection_ops", &["rects", "segs", "cloud", "blobs", "tiles", "lattice", "starholes"], false, false, |i, o| {
+        let pt = |k: usize| i.pts.0.get(k % i.pts.0.len().max(1)).copied().unwrap_or_else(|| Point::new(k as f64, 0.0));
+        let ln = |k: usize| i.lines.get(k % i.lines.len().max(1)).copied().unwrap_or_else(|| Line::new(Coord { x: 0.0, y: k as f64 }, Coord { x: 2.0, y: k as f64 }));
+        let ls0 = i.mls.0.first().cloned().unwrap_or_else(|| LineString::new(vec![Coord { x: -1.0, y: -2.0 }, Coord { x: 1.0, y: -2.0 }]));
+        let lineal_puntal = vec![
+            Geometry::Point(pt(0)),
+            Geometry::Line(ln(0)),
+            Geometry::MultiPoint(MultiPoint::new((1..5).map(pt).collect())),
+            Geometry::LineString(ls0),
+            Geometry::GeometryCollection(GeometryCollection::new_from(vec![Geometry::Point(pt(5)), Geometry::Line(ln(1)), Geometry::MultiPoint(MultiPoint::new(vec![]))])),
+            Geometry::Line(ln(2)),
+            Geometry::Point(pt(6)),
+        ];
+        let gc1 = GeometryCollection::new_from(lineal_puntal.clone());
+        let mut with_area = lineal_puntal;
+        with_area.insert(2, Geometry::Polygon(first_poly(i)));
+        with_area.push(Geometry::Rect(Rect::new(pt(7).0, pt(8).0)));
+        with_area.push(Geometry::Triangle(Triangle::new(pt(9).0, pt(10).0, pt(11).0)));
+        let gc2 = GeometryCollection::new_from(with_area);
+        // probes: input points and the grid points around the first of them
+        let base = pt(0);
+        let mut probes: Vec<Point<f64>> = i.pts.0.iter().take(20).copied().collect();
+        for dx in -2..=2 {
+            for dy in -2..=2 {
+                probes.push(Point::new(base.x().round() + dx as f64, base.y().round() + dy as f64));
+            }
+        }
+        for gc in [&gc1, &gc2] {
+            for p in &probes {
+                w_closest(o, &gc.closest_point(p));
+                o.f64(Euclidean.distance(&Geometry::GeometryCollection(gc.clone()), p));
+                o.bool(gc.intersects(p));
+                o.bool(gc.contains(p));
+                w_dbg(o, &gc.coordinate_position(&p.0));
+            }
+            w_closest(o, &Geometry::GeometryCollection(gc.clone()).closest_point(&probes[0]));
+            w_opt_pt(o, &gc.centroid());
+            w_opt_pt(o, &gc.interior_point());
+            w_dbg(o, &gc.bounding_rect());
+            w_poly(o, &gc.convex_hull());
+            o.f64(gc.unsigned_area());
+            w_dbg(o, &gc.dimensions());
+            w_dbg(o, &gc.boundary_dimensions());
+            o.u64(gc.coords_count() as u64);
+            let cs: Vec<Coord<f64>> = gc.coords_iter().collect();
+            cs.iter().for_each(|c| w_c(o, c));
+            w_dbg(o, &gc.relate(&first_poly(i)));
+            w_dbg(o, &first_poly(i).relate(gc));
+            w_geom(o, &Geometry::GeometryCollection(gc.map_coords(|c| Coord { x: c.y, y: c.x })));
+            w_dbg(o, &gc.extremes());
+            o.f64(gc.hausdorff_distance(&i.pts));
+        }
+    }),
     // ---- the par-iter surface of geo-types (user-level ordered collects)
     op!("par_iter_multipolygon", POLY_FAMS, false, false, |i, o| {
         let areas: Vec<f64> = i.a.par_iter().map(|p| p.unsigned_area()).collect();
